@@ -222,6 +222,7 @@ type Path struct {
 	Events []Event
 	End    string // "return", "panic", "stop", "exit"
 	Ret    []constant.Value
+	RetV   []ssa.Value // returned values with phis resolved along the path
 	Blocks []*ssa.BasicBlock
 	Last   ssa.Instruction
 }
@@ -607,10 +608,12 @@ func (en *enumerator) walk(fn *ssa.Function, b *ssa.BasicBlock, pred *ssa.BasicB
 			}
 		case *ssa.Return:
 			var ret []constant.Value
+			var retv []ssa.Value
 			for _, r := range x.Results {
 				ret = append(ret, en.evalConst(r, env))
+				retv = append(retv, resolvePhi(r, env))
 			}
-			emit(Path{Events: append([]Event(nil), events...), End: "return", Ret: ret, Blocks: blocks, Last: in}, env)
+			emit(Path{Events: append([]Event(nil), events...), End: "return", Ret: ret, RetV: retv, Blocks: blocks, Last: in}, env)
 			return
 		case *ssa.Panic:
 			emit(Path{Events: append([]Event(nil), events...), End: "panic", Blocks: blocks, Last: in}, env)
